@@ -282,8 +282,13 @@ func (tr *Trans) setupFrame(ct *Contract, sc *Scope) {
 func (tr *Trans) attachInvariants(res *FuncResult) {
 	ct := tr.contract
 	byKey := map[string]*ILLoop{}
+	copies := map[string][]*ILLoop{}
 	for _, l := range tr.il.Loops {
 		if l.Key != "" {
+			if l.CopyOf != nil {
+				copies[l.Key] = append(copies[l.Key], l)
+				continue
+			}
 			byKey[l.Key] = l
 		}
 	}
@@ -300,6 +305,9 @@ func (tr *Trans) attachInvariants(res *FuncResult) {
 				continue
 			}
 			l.Spec = ls
+			for _, c := range copies[ls.Key] {
+				c.Spec = ls
+			}
 		}
 	}
 	defer func() {
